@@ -500,16 +500,13 @@ pub fn gen_reply(r: &mut Rng) -> Vec<u8> {
         out.truncate(cut);
     }
     if mode == 12 || mode == 13 {
-        // a byte string whose length prefix cannot be backed by data (nor allocated): cut the body somewhere and let a
-        // string with such a prefix follow
-        let cut = r.below(out.len() as u64 + 1) as usize;
-        out.truncate(cut);
-        // (no digit in front: the prefix must stay one that no allocator is even asked for - a request that can be tried and
-        // fails aborts the process instead of unwinding)
-        while out.last().map(|c| c.is_ascii_digit() || *c == b'-').unwrap_or(false) {
+        // a byte string whose length prefix cannot be backed by data (nor allocated), as the value of one more key of the
+        // reply dictionary (aligned with the grammar: a prefix that an allocator is actually asked for would abort the process
+        // instead of unwinding, so the number must stay intact)
+        if out.last() == Some(&b'e') {
             out.pop();
         }
-        out.extend_from_slice(if mode == 12 { b"18446744073709551615:abc" } else { b"9223372036854775808:" });
+        out.extend_from_slice(if mode == 12 { b"3:zzz18446744073709551615:abc" } else { b"3:zzz9223372036854775808:" });
     }
     if mode == 11 {
         let n = r.below(10) as usize;
